@@ -1,7 +1,7 @@
 from collections.abc import Iterator
 
 from xdsl.context import Context
-from xdsl.dialects import builtin, memref, scf
+from xdsl.dialects import arith, builtin, memref, scf
 from xdsl.dialects.memref import DeallocOp
 from xdsl.ir import Block, Operation, OpResult, SSAValue, Use
 from xdsl.passes import ModulePass
@@ -24,11 +24,21 @@ def get_view_source(value: SSAValue) -> SSAValue:
     return value
 
 
+def get_view_sources(value: SSAValue) -> list[SSAValue]:
+    """Follow views back to the values they may be a view of: an arith.select of two buffers is either of them."""
+    if isinstance(value, OpResult):
+        if is_view_op(value.op):
+            return get_view_sources(value.op.operands[0])
+        if isinstance(value.op, arith.SelectOp):
+            return [*get_view_sources(value.op.lhs), *get_view_sources(value.op.rhs)]
+    return [value]
+
+
 def get_uses_through_views(value: SSAValue) -> Iterator[Use]:
     """Get all uses of the value, and of all views of the value."""
     for use in value.uses:
         yield use
-        if is_view_op(use.operation) and use.index == 0:
+        if (is_view_op(use.operation) and use.index == 0) or (isinstance(use.operation, arith.SelectOp) and use.index > 0):
             for result in use.operation.results:
                 yield from get_uses_through_views(result)
 
@@ -102,7 +112,7 @@ class InsertSyncBarrier(ModulePass):
             for operand in [*op_in_module.operands, *op_in_module.results]:
                 # check all ops that use the operand -> dependency with current op
                 # ops that use another view of the same memory depend on the current op as well
-                for op_use in get_uses_through_views(get_view_source(operand)):
+                for op_use in (use for source in get_view_sources(operand) for use in get_uses_through_views(source)):
                     # now check if op is dispatched to a specific core and the result
                     # is used on another core - if yes, there must be a synchronisation
                     # barrier between the two ops
